@@ -421,6 +421,30 @@ func genC17(o *Out, rng *rand.Rand, tier string) {
 		// absent
 		p, _ := dhcpv4.New()
 		o.Emit(map[string]any{"op": "Acc", "acc": a.name, "absent": true, "raw": []int{}, "res": callAcc(a, p)}, "absent", []byte(a.name), false)
+		// absent from packets of every kind: a BOOTP server's reply (no option at all, an address in yiaddr), a relayed request,
+		// a full DHCP reply from which just this option is missing - absent is absent
+		for k := 0; k < 4; k++ {
+			q, _ := dhcpv4.New()
+			q.Options = dhcpv4.Options{}
+			switch k {
+			case 0:
+				q.OpCode, q.YourIPAddr, q.ServerIPAddr = dhcpv4.OpcodeBootReply, net.IPv4(192, 0, 2, 9).To4(), net.IPv4(192, 0, 2, 1).To4()
+				q.BootFileName = "boot.img"
+			case 1:
+				q.GatewayIPAddr, q.HopCount = net.IPv4(10, 0, 0, 1).To4(), 1
+			case 2:
+				if full, ok := packetInContext(rng, 224, []byte{1}); ok {
+					q = full
+					delete(q.Options, a.code)
+				}
+			default:
+				q.OpCode, q.YourIPAddr = dhcpv4.OpcodeBootReply, net.IPv4(192, 0, 2, 9).To4()
+				if w, err := dhcpv4.FromBytes(q.ToBytes()); err == nil {
+					q = w
+				}
+			}
+			o.Emit(map[string]any{"op": "Acc", "acc": a.name, "absent": true, "raw": []int{}, "res": callAcc(a, q)}, "absent-in-context", append([]byte(a.name), byte(k)), false)
+		}
 		for L := 0; L <= 64; L++ {
 			for k := 0; k < variants+2; k++ {
 				var raw []byte
@@ -547,6 +571,7 @@ func genC17(o *Out, rng *rand.Rand, tier string) {
 	}
 	// set -> get through the typed constructors
 	n := 40 * variants
+	sgPrev := map[uint8]dhcpv4.Option{}
 	setget := func(acc string, opt dhcpv4.Option, val any) {
 		var a accessor
 		for _, x := range accessors {
@@ -555,6 +580,12 @@ func genC17(o *Out, rng *rand.Rand, tier string) {
 			}
 		}
 		p, _ := dhcpv4.New(dhcpv4.WithOption(opt))
+		if sgPrev[opt.Code.Code()].Code != nil && rng.Intn(2) == 0 {
+			// the option had another value before (the previous one this generator built for the code): what is set last is what is read
+			p, _ = dhcpv4.New(dhcpv4.WithOption(sgPrev[opt.Code.Code()]))
+			p.UpdateOption(opt)
+		}
+		sgPrev[opt.Code.Code()] = opt
 		key := append([]byte("sg"+acc), p.Options[opt.Code.Code()]...)
 		o.Emit(map[string]any{"op": "SetGet", "acc": acc, "val": val, "raw": B(p.Options[opt.Code.Code()]), "res": callAcc(a, p)}, "set-get", key, true)
 		// the value set on this packet is its own: another packet that was given the same stored value (a copy of
